@@ -150,7 +150,10 @@ def run_history(scn, wd, out, prop_id, variant="plain", judge_exit=False, wp_onl
                 sig = "%s after [%s]%s" % (kind, ",".join(sorted(set(since))) or "nothing", exotic_tag(units))
                 if r.xml_ok and _samename_suppression_leak(oa, ob, units):
                     sig = K10_SIG
-                elif kind == K9_KIND:
+                elif kind == K9_KIND and run.get("exec", "j1") == "j1" and runs_done > 0 and 0 < len(written) < len(units):
+                    # known finding K9 needs exactly this: one job (only then is there an in-memory whole-program analysis next
+                    # to the build-dir one), some units re-analysed and some taken from the cache; anywhere else a duplicated
+                    # whole-program finding keeps its ordinary signature and is reported
                     sig = K9_KIND + " in a partially cached run"
                 det = head + core.fmt_diff(oa, ob, "cached", "fresh")
                 ids = ",".join(sorted(set(("+" if side == 0 else "-") + k.id for side, lst in enumerate((oa, ob)) for k, _ in lst)))
